@@ -116,11 +116,16 @@ type exchOp struct {
 	dl       int
 	rnd      []byte
 	d        [][]byte
+	zone     string // zone of the client's local address ("lo": no kernel timestamps; "" when absent)
 }
 
 func (o exchOp) String() string {
-	return fmt.Sprintf("cl.exch tr=%s pool=%s c2s=%s s2c=%s hdr=%s now=%d dl=%d rand=%s d=%s",
+	s := fmt.Sprintf("cl.exch tr=%s pool=%s c2s=%s s2c=%s hdr=%s now=%d dl=%d rand=%s d=%s",
 		o.tr, hexList(o.pool), lib.Hex(o.c2s), lib.Hex(o.s2c), lib.Hex(o.hdr), o.now, o.dl, lib.Hex(o.rnd), hexList(o.d))
+	if o.zone != "" {
+		s += " zone=" + o.zone
+	}
+	return s
 }
 
 func parseExchOp(t []string) (o exchOp, ok bool) {
@@ -149,6 +154,12 @@ func parseExchOp(t []string) (o exchOp, ok bool) {
 			o.rnd = unhex(v)
 		case "d":
 			o.d = unhexList(v)
+		case "zone":
+			if v != "lo" {
+				return o, false
+			}
+			o.zone = v
+			continue
 		case "seal", "open":
 			continue
 		default:
@@ -311,6 +322,8 @@ func runExch(o exchOp) (res exchRun) {
 	t0 := time.Now()
 	ctx, cancel := context.WithDeadline(context.Background(), t0.Add(time.Duration(o.dl)*time.Millisecond))
 	defer cancel()
+	liveZone = o.zone
+	defer func() { liveZone = "" }()
 	var done chan callRes
 	if o.tr == "scion" {
 		done = callClient(func() (time.Time, time.Duration, error) { return poolSCION.measure(ctx) })
@@ -582,6 +595,7 @@ type poolHist struct {
 	bogus    map[string]string // cookie bytes the peer put into datagrams that do not authenticate
 	stale    []byte
 	nEx      int
+	zone     string // zone of the client's local address for the exchanges of this history
 }
 
 func (h *poolHist) init(c *lib.Ctx, r *lib.Rand, level, cookieLen int) {
@@ -714,7 +728,7 @@ func (h *poolHist) build(c *lib.Ctx, r *lib.Rand, s poolScript) (b built, ok boo
 	if b.acceptAt >= 0 {
 		dl = 4000 // the call returns as soon as the reply is accepted; generous for a loaded machine
 	}
-	b.op = exchOp{tr: h.tr, pool: h.pool, c2s: h.c2s, s2c: h.s2c, hdr: hdr, now: now, dl: dl, rnd: rnd, d: d}
+	b.op = exchOp{tr: h.tr, pool: h.pool, c2s: h.c2s, s2c: h.s2c, hdr: hdr, now: now, dl: dl, rnd: rnd, d: d, zone: h.zone}
 	return b, true
 }
 
@@ -998,17 +1012,50 @@ func genPool(c *lib.Ctx, tag string, scionTr bool) {
 			}
 		}
 	}
+	// the regime without kernel timestamps (zone "lo": the tx timestamp read fails for every request, the
+	// receive time is a clock reading): at least twelve consecutive calls on one client with lost
+	// exchanges (nothing comes back before the deadline) and refused datagrams in between — a cookie
+	// that left the host with a request must never reach the wire again, however the exchange ended
+	lossy := [][]int{{0, 1}, {1}, {1, 2, 5}, {0, 3, 4, 9}, {2, 3}}
+	for hi := 0; hi < c.Scale(3, 12); hi++ {
+		h.init(c, r, 8, 124)
+		h.zone = "lo"
+		lost := map[int]bool{}
+		for _, k := range lossy[(hi+r.Intn(len(lossy)))%len(lossy)] {
+			lost[k] = true
+		}
+		ok := true
+		for i := 0; ok && i < 14 && len(h.pool) > 1; i++ {
+			switch {
+			case lost[i] && r.Chance(70):
+				ok = h.exchange(c, r, poolScript{kinds: nil}) // reply lost
+				c.Count(tag + ":nostamp:lost")
+			case lost[i]:
+				ok = h.exchange(c, r, poolScript{kinds: []int{r.Intn(nk)}, k: 1 + r.Intn(2), content: r.Intn(5)}) // junk only, then the deadline
+				c.Count(tag + ":nostamp:junk-then-timeout")
+			case r.Chance(25):
+				ok = h.exchange(c, r, poolScript{kinds: []int{r.Intn(nk), -1}, k: 1 + r.Intn(2), content: r.Intn(5)})
+			default:
+				ok = h.exchange(c, r, clean)
+			}
+		}
+		h.zone = ""
+	}
 	// random histories
 	nh := c.Scale(8, 120)
 	for i := 0; i < nh; i++ {
 		level := []int{8, 8, 8, 7, 5, 3, 2, 1}[r.Intn(8)]
 		cl := []int{124, 124, 124, 124, 100, 156, 188, 64}[r.Intn(8)]
 		h.init(c, r, level, cl)
+		if r.Chance(30) {
+			h.zone = "lo"
+		}
 		n := 10 + r.Intn(16)
 		for k := 0; k < n; k++ {
 			if !h.exchange(c, r, pickScript(r, len(h.pool))) {
 				break
 			}
 		}
+		h.zone = ""
 	}
 }
